@@ -44,6 +44,10 @@ class Finding:
         return f"{self.name} [{self.alloc}] {self.how} in {self.user.qual}"
 
 
+CONSUMING_BUILTINS = {"reduce", "list", "tuple", "sorted", "sum", "max", "min", "any", "all", "set", "frozenset", "dict", "deque",
+                      "zip", "enumerate", "map", "filter", "chain", "join", "extend", "starmap", "accumulate"}
+
+
 class Staging:
     def __init__(self, repo: Repo, model: Model):
         self.repo = repo
@@ -286,6 +290,9 @@ class Staging:
                                 and isinstance(n.args[0], ast.Name) and n.args[0].id == name \
                                 and kinds & {"ONESHOT", "ONESHOT-INF"}:
                             how = "next()"
+                        elif call_name(n) in CONSUMING_BUILTINS and kinds & {"ONESHOT"} \
+                                and any(isinstance(a_, ast.Name) and a_.id == name for a_ in n.args):
+                            how = f"consumed by {call_name(n)}()"
                     elif isinstance(n, (ast.For, ast.AsyncFor)) and isinstance(n.iter, ast.Name) and n.iter.id == name:
                         if kinds & {"ONESHOT"} or (kinds & {"ONESHOT-INF"} and self._target_used(n.target, n.body)):
                             how = "for-in"
